@@ -116,3 +116,13 @@ func getSetCommandOptions(clock clock.Clock, cmd []string, options SetOptions) (
 		return SetOptions{}, fmt.Errorf("unknown option %s for set command", strings.ToUpper(cmd[0]))
 	}
 }
+
+// isScalar reports whether a stored value is a string value (kept as string, int or float64),
+// as opposed to a list, hash, set or sorted set.
+func isScalar(value interface{}) bool {
+	switch value.(type) {
+	case string, int, int64, float64:
+		return true
+	}
+	return false
+}
